@@ -4,9 +4,9 @@
   the few links that translation uses.
 
   A `Bar` object is `GBar`: its `Sequence` as a wrapper state (`Seq`, both views and both stale flags),
-  numerator, denominator, key index (`pyNone` for `None`) and the constructor's `default_channel` (stored by
-  `Bar.__init__` since the repair of D37; `pyNone` for `None`).  The hand model `SCoda.Bar`
-  (Model/Bar.lean) keeps only the relative view; `GBar.toBar` forgets the rest.
+  numerator, denominator and key index (`pyNone` for `None`).  (The constructor's `default_channel` is not an attribute
+  of a bar: since the second repair of D37 `Bar.copy` reads the channel off the bar's own leading time-signature
+  message.)  The hand model `SCoda.Bar` (Model/Bar.lean) keeps only the relative view; `GBar.toBar` forgets the rest.
 -/
 import SCoda.Model.ViewLib
 import SCoda.Model.PyNum
@@ -17,7 +17,6 @@ structure GBar where
   num : Int := pyNone
   den : Int := pyNone
   key : Int := pyNone
-  defaultChannel : Int := 0
   deriving DecidableEq, Repr, Inhabited
 
 structure GTrack where
@@ -32,11 +31,9 @@ structure GComposition where
 /-- what the hand model keeps of a bar: the relative view of its sequence and the three scalars -/
 def GBar.toBar (g : GBar) : Bar := { seq := g.sequence.rel, num := g.num, den := g.den, key := g.key }
 
-/-- the state `Bar.__init__` leaves the sequence of a bar in: relative view fresh, absolute view stale
-    (`default_channel` 0: the parameter's default, with which `sequences_split_bars` builds its bars) -/
+/-- the state `Bar.__init__` leaves the sequence of a bar in: relative view fresh, absolute view stale -/
 def GBar.ofBar (b : Bar) : GBar :=
-  { sequence := { abs := [], rel := b.seq, absStale := true, relStale := false }, num := b.num, den := b.den, key := b.key,
-    defaultChannel := 0 }
+  { sequence := { abs := [], rel := b.seq, absStale := true, relStale := false }, num := b.num, den := b.den, key := b.key }
 
 /-- the `int` in Python's `int(<numeric expression>)`, as an `Int` -/
 def pyIntOf (x : PyNum) : Int :=
